@@ -104,6 +104,7 @@ class Monitor:
         m = np.empty(models.npt)
         r = np.empty(models.npt)
         dm = np.zeros(models.npt)      # rounding slack of each merit value
+        dr = np.zeros(models.npt)      # rounding slack of each violation
         for k in range(models.npt):
             x = pts[:, k]
             parts = [np.maximum(a_ub @ x - b_ub, 0.0), np.abs(a_eq @ x - b_eq),
@@ -114,6 +115,10 @@ class Monitor:
             m[k] = float(models.fun_val[k])
             if pen > 0.0 and np.count_nonzero(v):
                 m[k] += pen * float(np.linalg.norm(v))
+            mag_lin = np.concatenate([
+                np.abs(a_ub) @ np.abs(x) + np.abs(b_ub),
+                np.abs(a_eq) @ np.abs(x) + np.abs(b_eq), np.zeros(1)])
+            dr[k] = 8.0 * EPS * float(np.max(mag_lin))
             if pen > 0.0:
                 # the linear residuals are recomputed here with a different
                 # summation order than the solver's: eps*(|A||x|+|b|) each
@@ -123,6 +128,7 @@ class Monitor:
                 dm[k] = pen * 8.0 * EPS * float(np.linalg.norm(mag)) \
                     + 4.0 * EPS * abs(m[k])
         self._dm = dm
+        self._dr = dr
         return m, r
 
     def quiescent(self, tr, where):
@@ -160,6 +166,20 @@ class Monitor:
         gap = float(m[b] - m[k])
         slack = npt * tol + float(self._dm[b] + self._dm[k])
         self.worst_merit_gap = max(self.worst_merit_gap, gap / slack)
+        # tie rule, asserted only for EXACT ties (all merits within the
+        # solver's tolerance of the centre's are bitwise equal to it): a
+        # single scan of the correct rule then ends on the least violation
+        pen = float(tr.penalty)
+        near = np.flatnonzero(np.abs(m - m[b]) < tol)
+        if near.size > 1 and np.all(m[near] == m[b]) and pen == 0.0:
+            for j in near:
+                if r[j] < r[b] - (self._dr[j] + self._dr[b]) - 1e-300:
+                    self.bad("tie_not_to_smaller_violation",
+                             f"{where}: points {b} (centre) and {int(j)} tie "
+                             f"exactly on merit {m[b]!r} but the centre has "
+                             f"the larger violation ({r[b]!r} > {r[j]!r})",
+                             mechanism="tie:" + where)
+                    break
         if gap > slack:
             self.bad("centre_not_least_merit",
                      f"{where}: the centre (index {b}) has merit {m[b]!r} but "
